@@ -15,7 +15,7 @@ from ..values import *
 from .. import transfer as T
 from ..fgmodel import GeoHooks, build_fullgrid, FG
 from ..spterm import underlying, show
-from ..model import AnalysisError
+from ..model import AnalysisError, src
 
 META = {
     "explanation": "Abstract interpretation of the position-grid kernels with symbolic shell count n_t>=2 and direction count "
@@ -343,7 +343,41 @@ def analyse(ctx, repo, prop):
                                   "boundary radius)", where, "multiply = self.get_radii()", witness=f"derived {vstr(val)[:200]} ; expected {r(k).pretty()}")
 
 
+def forward_recurrences(ctx, repo):
+    """RECUR: an in-place slice update inside an ascending loop that reads the slice written by the previous iteration computes a
+    recurrence (alternating sum), not the difference of the original values"""
+    import ast
+    pci = repo.cls(FG, "PositionGrid")
+    for m in pci.methods.values():
+        for lp in [n for n in ast.walk(m.node) if isinstance(n, ast.For)]:
+            if not (isinstance(lp.iter, ast.Call) and isinstance(lp.iter.func, ast.Name) and lp.iter.func.id == "range" and isinstance(lp.target, ast.Name)):
+                continue
+            step_neg = len(lp.iter.args) == 3 and isinstance(lp.iter.args[2], ast.UnaryOp)
+            i = lp.target.id
+            for st in ast.walk(lp):
+                if isinstance(st, ast.AugAssign) and isinstance(st.target, ast.Subscript) and isinstance(st.target.value, ast.Name):
+                    A = st.target.value.id
+                    reads = [x for x in ast.walk(st.value) if isinstance(x, ast.Subscript) and isinstance(x.value, ast.Name) and x.value.id == A]
+                    if not reads:
+                        continue
+                    wtxt = src(st.target.slice).replace(" ", "")
+                    for r_ in reads:
+                        rtxt = src(r_.slice).replace(" ", "")
+                        prev = wtxt.replace(f"({i}+1)", "#HI#").replace(i, f"({i}-1)").replace("#HI#", i)
+                        ctx.instance("KERNEL")
+                        if not step_neg and (rtxt == prev or f"{i}-1" in rtxt):
+                            ctx.violate("KERNEL", "C05.recurrence", "an in-place update of shell k reads shell k-1 after that shell was already "
+                                        "updated in the previous iteration: the result is the alternating sum cone_k - cone_{k-1} + cone_{k-2} - ..., "
+                                        "not R_k^3 - R_{k-1}^3 (wrong from the third shell on)", m.where, norm_src(st),
+                                        witness=f"ascending loop over {i}; writes [{wtxt}], reads [{rtxt}] of the same array")
+
+
+def norm_src(n):
+    return " ".join(src(n).split())[:200]
+
+
 def run(ctx, repo, tier):
+    forward_recurrences(ctx, repo)
     where_v = "molgri/space/fullgrid.py:PositionGrid.get_all_position_volumes"
     # ---------------- volumes
     hooks = GeoHooks(repo, n_b, n_o, n_t, bounds={"n_b": 4, "n_o": 4, "n_t": 2}, b_alg="cube4D", o_alg="ico")
